@@ -221,7 +221,7 @@ class M(Model):
             was_conn = bool((pos[k] == self._tab(s)[1][k]).all())
             want = 0.0 if was_conn else self.r_step
             if abs(rew[k] - want) > 1e-6:
-                out.append(("illegal move rewarded like a connection", f"agent {k}: reward {rew[k]} expected {want}"))
+                out.append(("agent whose illegal move was ignored does not get the plain timestep reward", f"agent {k}: reward {rew[k]} expected {want}"))
         return out
 
     # ------------------------------------------------------------------------------------ C06
